@@ -91,6 +91,94 @@ sys.exit(1 if bad else 0)
 '''
 
 
+REPLAY_DTYPE = '''
+# element representation: a writer for the given dtype cell, fed through the given input form, must read back the values written
+from vlib import build
+import numpy as np, tempfile, os, shutil, sys, warnings
+warnings.simplefilter('ignore')
+drf = build.load_pkg()
+kw = %r
+KINDS = ['i', 'u', 'f', 'c']
+k = KINDS[kw.get('kind', 0)]; size = kw.get('size', 2); order = '<>='[kw.get('order', 0)]; form = kw.get('form', 0); ic = bool(kw.get('is_complex', False)); inp = kw.get('inp', 0)
+base = np.dtype(order + k + str(size))
+dt = np.dtype([('r', base), ('i', base)]) if (form == 1 and k != 'c') else base
+comp = np.dtype('f%%d' %% (size // 2)) if k == 'c' else np.dtype(k + str(size))
+cplx = k == 'c' or form == 1 or ic
+d = tempfile.mkdtemp(); os.makedirs(d + '/ch')
+w = drf.DigitalRFWriter(d + '/ch', dt, 3600, 1000, 10**10, 10, 1, 'u', is_complex=ic, is_continuous=True, marching_periods=False)
+N = 6
+re_ = (np.arange(N) + 1).astype(comp); im_ = (np.arange(N) + 11).astype(comp)
+if inp == 0:
+    if cplx:
+        if comp.kind != 'f' or comp.itemsize > 16: print('no native complex type for this cell'); shutil.rmtree(d); sys.exit(0)
+        a = (re_.astype('f16' if comp.itemsize == 16 else 'f8') + 1j * im_).astype('c%%d' %% (2 * comp.itemsize))
+    else: a = re_
+elif inp == 1:
+    if not cplx: shutil.rmtree(d); sys.exit(0)
+    a = np.zeros(N, dtype=[('r', comp), ('i', comp)]); a['r'] = re_; a['i'] = im_
+else:
+    if cplx:
+        a = np.zeros(2 * N, dtype=comp); a[0::2] = re_; a[1::2] = im_
+    else: a = re_
+bad = 0
+try:
+    w.rf_write(a); w.close()
+    out = drf.DigitalRFReader(d).read_vector_raw(10**10, N, 'ch')
+    if cplx:
+        gr = out['r'] if out.dtype.names else out.real; gi = out['i'] if out.dtype.names else out.imag
+        ok = np.array_equal(np.asarray(gr, dtype=comp.newbyteorder('=')), re_) and np.array_equal(np.asarray(gi, dtype=comp.newbyteorder('=')), im_)
+    else:
+        ok = np.array_equal(np.asarray(out, dtype=comp.newbyteorder('=')), re_)
+    print('writer dtype', dt, 'complex' if cplx else 'real', 'input form', inp, '-> read back', out.dtype, out[:2], 'OK' if ok else 'DIFFERENT FROM WHAT WAS WRITTEN')
+    bad = not ok
+except Exception as e:
+    print('raised', type(e).__name__, e); bad = 1
+shutil.rmtree(d)
+sys.exit(1 if bad else 0)
+'''
+
+
+def dtype_part(rep, st, tier):
+    """python layer of the element representation: DigitalRFWriter.__init__ + _cast_input_array executed by CrossHair over every dtype
+    descriptor, numpy replaced by a descriptor-level stand-in that is compared with real numpy here first"""
+    import numpy as np, sys as _sys
+    from vlib import chx
+    from checks.ch import dtype as D
+    diffs = []
+    for k in D.KINDS:
+        for size in D.VALID[k]:
+            for o in '<>=':
+                try: real = np.dtype(o + k + str(size))
+                except TypeError: continue
+                f = D.FDType(k, size, o)
+                if (f.kind, f.itemsize, f.byteorder) != (real.kind, real.itemsize, real.byteorder): diffs.append((k, size, o, 'attributes'))
+                s_real = np.dtype([('r', real), ('i', real)]); s_f = D.FNP.dtype([('r', f), ('i', f)])
+                if s_real.names != s_f.names or s_real.itemsize != s_f.itemsize or s_real['r'].byteorder != s_f['r'].byteorder: diffs.append((k, size, o, 'struct'))
+                for m, mf in ((np.complexfloating, D.FNP.complexfloating), (np.floating, D.FNP.floating)):
+                    if bool(np.issubdtype(real, m)) != bool(D.FNP.issubdtype(f, mf)): diffs.append((k, size, o, 'issubdtype'))
+                for no in '<>=S':
+                    r2 = real.newbyteorder(no); f2 = f.newbyteorder(no)
+                    if r2.byteorder != f2.byteorder: diffs.append((k, size, o, 'newbyteorder ' + no))
+    for txt in ('f4', 'c8', 'c16', 'f2', 'c32', 'f16'):
+        a, b = np.dtype(txt), D.FNP.dtype(txt)
+        if (a.kind, a.itemsize, a.byteorder) != (b.kind, b.itemsize, b.byteorder): diffs.append((txt, 'parse'))
+    for txt in ('c4', 'f3', 'c64'):
+        for mod, nm in ((np, 'numpy'), (D.FNP, 'stand-in')):
+            try: mod.dtype(txt); diffs.append((txt, nm + ' accepts'))
+            except TypeError: pass
+    if diffs:
+        rep.ob('numpy stand-in of the dtype harness agrees with real numpy on every descriptor', 'inconclusive', detail=str(diffs[:6])); return
+    rep.ob('numpy stand-in of the dtype harness agrees with real numpy on every descriptor (attributes, structured pairs, issubdtype, newbyteorder, '
+           'type strings)', 'witness', None, 0, 0, 1)
+    res = chx.run_module('dtype', per_condition_timeout=240 if tier == 'quick' else 900)
+    titles = {'_writer_representation': 'python writer: for every element type (int / uint / float / complex x size x byte order, real, is_complex, structured (r, i)) and '
+                                        'every input form (native complex or real array, structured (r, i) array, flat interleaved reals) the array handed to the extension '
+                                        'has exactly the representation declared to the C library at init (kind, size, byte order of the components, (r, i) pairs), by '
+                                        'value-converting casts or views of identical representation only',
+              '_dtype_witness': 'reachability: a complex floating point writer is constructed'}
+    chx.report(rep, res, titles, replays={'_writer_representation': lambda kw: REPLAY_DTYPE % (kw,)}, sigs={'_writer_representation': 'C01.py.dtype_representation'})
+
+
 def main(tier):
     rep = common.Report('C01', tier, 'model_checking', functions=FUNCS)
     st = smt.Stats()
@@ -123,5 +211,6 @@ def main(tier):
     from checks import readerside
     readerside.c01_part(rep, st, tier)
     from checks import extglue
+    dtype_part(rep, st, tier)
     extglue.run(rep, st, tier)       # the Python extension hands the caller's arrays to the library unchanged (data pointers, strides)
     return rep.finish()
